@@ -39,6 +39,11 @@ def matrix(tier):
 
 
 def run(rep, tier, seed, replay, proof_ok, proof_msg):
+    if replay and any(ln.startswith("ftree ") for ln in open(replay)):
+        import ftree
+        from props import C13, C17
+        ftree.standard(rep, tier, seed, replay, proof_ok, proof_msg, "C19", 1, 1, True, lambda r: ([], C13.evaluate(r)[1] + C17.evaluate(r)[1]), export=True)
+        return
     tus = matrix(tier)
     res = common.build_many([t[1] for t in tus])
     compiled, failed = [], []
@@ -72,6 +77,31 @@ def run(rep, tier, seed, replay, proof_ok, proof_msg):
             for sig, msg in corr[:1]:
                 if not orc:
                     rep.violation("corr:" + sig, "# correspondence broke: %s\n%s\n" % (msg, "\n".join(r.case["lines"])), False, "case %s: %s" % (r.case["name"], msg))
+    # every compiled scalar-type / value-count configuration of the tree runs move / rebuild / export histories
+    import ftree
+    from props import C13, C17
+    fbin = {cfg: res[ftree.spec_of(cfg)["name"]][0] for cfg in ftree.CONFIGS if res[ftree.spec_of(cfg)["name"]][0]}
+    n_hist = 0
+    if fbin:
+        fcases = []
+        for k in range(8 * len(fbin)):
+            r_ = gen.rng(seed, "C19f", k)
+            fcases.append(ftree.make_case("c19f-%d" % k, sorted(fbin)[k % len(fbin)], r_, "quick", True, True))
+        for r in ftree.run_cases(fcases, fbin):
+            n_hist += 1
+            text = "# cfg=%r\n" % (r.case["cfg"],) + "\n".join(r.case["lines"]) + "\n"
+            if r.crash is not None:
+                rep.violation("crash:" + corefam.crash_signature(r.crash), "# " + r.crash.replace("\n", "\n# ") + "\n" + text, True,
+                              "library aborted on configuration %r, case %s" % (r.case["cfg"], r.case["name"]))
+                continue
+            if r.cpp is None or r.lean is None:
+                continue
+            orc = C13.evaluate(r)[1] + C17.evaluate(r)[1]
+            for sig, msg in orc[:3]:
+                rep.violation("C19:config:" + sig, "# configuration %r misbehaves: %s\n%s" % (r.case["cfg"], msg, text), True,
+                              "configuration %r, case %s: %s" % (r.case["cfg"], r.case["name"], msg))
+    n_eval += n_hist
+    rep.cov["history_cases_per_scalar_configuration"] = n_hist
     rep.cov["explanation"] = ("compile matrix: %d translation units attempted, %d compiled; every compiled configuration then ran %d exactly-once / "
                               "construction correspondence cases.  The guarantees themselves are theorems generic in D, ordering and grouping (C01, C06, C13)."
                               % (len(tus), len(compiled), n_eval))
